@@ -72,6 +72,32 @@ def kpCorner {α : Type} (ham : QVec3 → α) (p dK v : QVec3) : α := ham (fold
 /-- direct evaluation of the k.p Hamiltonian at the corner k-point `p + dK + v` -/
 def kpDirect {α : Type} (ham : QVec3 → α) (p dK v : QVec3) : α := ham (foldV (qadd (qadd p dK) v))
 
+/-! #### Cartesian form of the corner k-points (reciprocal cell with rows `b₁,b₂,b₃`, not necessarily orthogonal) -/
+
+abbrev Mat3 := QVec3 × QVec3 × QVec3
+
+def smulQ (a : Rat) (v : QVec3) : QVec3 := (a * v.1, a * v.2.1, a * v.2.2)
+def dotQ (u v : QVec3) : Rat := u.1 * v.1 + u.2.1 * v.2.1 + u.2.2 * v.2.2
+
+/-- `s.dot(M)` : row vector times matrix -/
+def vecMat (s : QVec3) (M : Mat3) : QVec3 := qadd (qadd (smulQ s.1 M.1) (smulQ s.2.1 M.2.1)) (smulQ s.2.2 M.2.2)
+/-- `M.dot(s)` : matrix times column vector (the TRANSPOSED contraction) -/
+def matVec (M : Mat3) (s : QVec3) : QVec3 := (dotQ M.1 s, dotQ M.2.1 s, dotQ M.2.2 s)
+
+/-- `SystemKP.k_red2cart`: `np.dot(k, recip_lattice)` -/
+def redToCart (B : Mat3) (k : QVec3) : QVec3 := vecMat k B
+/-- `(np.array([ix,iy,iz]) - 0.5) * dK` : component-wise product -/
+def hadamard (s dK : QVec3) : QVec3 := (s.1 * dK.1, s.2.1 * dK.2.1, s.2.2 * dK.2.2)
+/-- `KpointBZparallel.dK_fullBZ_cart = dK_fullBZ[:, None] * recip_lattice` : the edge vectors of the parallelepiped -/
+def dKcart (dK : QVec3) (B : Mat3) : Mat3 := (smulQ dK.1 B.1, smulQ dK.2.1 B.2.1, smulQ dK.2.2 B.2.2)
+
+/-- corner evaluation when the user's Hamiltonian takes Cartesian k (`k_vector_cartesian=True`):
+    `Ham_user(k_red2cart(k_to_1BZ(k + v)))` -/
+def kpCornerCart {α : Type} (ham : QVec3 → α) (B : Mat3) (p dK v : QVec3) : α :=
+  ham (redToCart B (foldV (qadd (fracV (qadd p dK)) v)))
+def kpDirectCart {α : Type} (ham : QVec3 → α) (B : Mat3) (p dK v : QVec3) : α :=
+  ham (redToCart B (foldV (qadd (qadd p dK) v)))
+
 /-- exact square root of a rational perfect square (used by the driver only) -/
 def sqrtExact (x : Rat) : Rat := mkRat (Nat.sqrt x.num.natAbs) (Nat.sqrt x.den)
 
@@ -130,6 +156,13 @@ def handle : List String → String
     | some c, some P, some dK, some V =>
       showListWith (fun p => showRats (V.map fun v => kpCorner (polyHam c) p dK v)) "#" P
     | _, _, _, _ => "bad-op"
+  -- the same for a reciprocal cell B (rows) and a Hamiltonian that takes Cartesian k (B = identity: reduced k)
+  | ["kpcornerc", cs, b, ps, dk, vs] =>
+    match parseRats? cs, (parseRatss? b).bind (·.mapM toQVec3?), (parseRatss? ps).bind (·.mapM toQVec3?),
+        (parseRats? dk).bind toQVec3?, (parseRatss? vs).bind (·.mapM toQVec3?) with
+    | some c, some [b1, b2, b3], some P, some dK, some V =>
+      showListWith (fun p => showRats (V.map fun v => kpCornerCart (polyHam c) (b1, b2, b3) p dK v)) "#" P
+    | _, _, _, _, _ => "bad-op"
   | _ => "bad-op"
 
 end WB.C33
